@@ -53,6 +53,13 @@ inline PDU* make_default(Dot11ControlTA*) { return new Dot11RTS(); }
 inline PDU* make_default(RawPDU*) { return new RawPDU(pattern(5)); }
 inline PDU* make_default(...) { return 0; }
 
+// base objects the generated variants start from: classes whose wire format depends on a message type get one base per type
+template <class Q> std::vector<PDU*> make_bases(Q*) { std::vector<PDU*> v; if (PDU* p = make_default((Q*)0)) v.push_back(p); return v; }
+inline std::vector<PDU*> make_bases(ICMPv6*) { return {new ICMPv6(ICMPv6::ROUTER_ADVERT), new ICMPv6(ICMPv6::NEIGHBOUR_SOLICIT), new ICMPv6(ICMPv6::ECHO_REQUEST), new ICMPv6(ICMPv6::MGM_QUERY), new ICMPv6(ICMPv6::MLD2_REPORT), new ICMPv6(ICMPv6::REDIRECT)}; }
+inline std::vector<PDU*> make_bases(ICMP*) { return {new ICMP(ICMP::ECHO_REQUEST), new ICMP(ICMP::TIMESTAMP_REQUEST), new ICMP(ICMP::ADDRESS_MASK_REQUEST), new ICMP(ICMP::DEST_UNREACHABLE)}; }
+inline std::vector<PDU*> make_bases(DHCPv6*) { DHCPv6* r = new DHCPv6(); r->msg_type(DHCPv6::RELAY_FORWARD); return {new DHCPv6(), r}; }
+inline std::vector<PDU*> make_bases(PPPoE*) { PPPoE* d = new PPPoE(); d->code(0x09); return {d, new PPPoE()}; }
+
 template <class C, class A> typename std::decay<A>::type setter_arg(void (C::*)(A));
 
 inline void add(std::vector<Built>& out, const std::string& name, PDU* p, const std::type_info* own = 0) { out.push_back(Built{name, std::unique_ptr<PDU>(p), own}); }
@@ -260,9 +267,11 @@ inline void hand_written(std::vector<Built>& out) {
 // generated variants: every (class, setter) with a domain, sample k
 inline void generated(std::vector<Built>& out, int variants_per_setter) {
 #define API_PAIR(Q, T, N, A, R) { typedef decltype(setter_arg(&Q::N)) Arg; int ns = nsamples<Arg>(); \
-    for (int k = 0; k < ns && k < variants_per_setter; ++k) { PDU* o = make_default((Q*)0); if (!o) break; \
-        try { static_cast<Q*>(o)->N(sample<Arg>(k)); const std::type_info* ti = &typeid(*o); add(out, std::string(#T "." #N "#") + std::to_string(k), wrap(o), ti); } \
-        catch (std::exception& e_) { if (!mc::tins_exc(e_)) throw; delete o; } } }
+    for (int k = 0; k < ns && k < variants_per_setter; ++k) { std::vector<PDU*> bs = make_bases((Q*)0); int bi = 0; \
+      for (PDU* o : bs) { \
+        if (bi && (std::is_arithmetic<Arg>::value || k > 0)) { delete o; ++bi; continue; }   /* extra message types: first sample of non-scalar (option) setters only */ \
+        try { static_cast<Q*>(o)->N(sample<Arg>(k)); const std::type_info* ti = &typeid(*o); add(out, std::string(#T "." #N "#") + std::to_string(k) + (bi ? "@" + std::to_string(bi) : ""), wrap(o), ti); } \
+        catch (std::exception& e_) { if (!mc::tins_exc(e_)) throw; delete o; } ++bi; } } }
 #include "api.inc"
 #undef API_PAIR
 }
